@@ -88,4 +88,23 @@ def nsiBetweenness (n : Nat) (a : Adj) (w : Nat → Rat) (isSrc : List Bool)
   let r := kernel n k flat w isSrc targets
   (List.range n).map fun l => r.getD l 0 / w l
 
+/-- `is_source = np.zeros(N); is_source[sources] = 1` (`sources=None`: all ones) in
+`Network.nsi_betweenness` (network.py) -/
+def srcMaskOf (n : Nat) (sources : Option (List Nat)) : List Bool :=
+  match sources with
+  | none => List.replicate n true
+  | some L => (List.range n).map fun v => L.contains v
+
+/-- `Network.nsi_betweenness(sources, targets, nsi)` with `parallelize=False`: default arguments
+(`targets=None` → `np.arange(N)`), unit weights for `nsi=False` (`np.ones_like(w)`), then the worker -/
+def apiBetweenness (n : Nat) (a : Adj) (nodeW : Nat → Rat) (sources targets : Option (List Nat))
+    (nsi : Bool) : List Rat :=
+  nsiBetweenness n a (if nsi then nodeW else fun _ => 1) (srcMaskOf n sources)
+    (targets.getD (List.range n))
+
+/-- `interregional_betweenness(sources, targets)` = `nsi_betweenness(sources, targets, nsi=False)` -/
+def interregionalBetweenness (n : Nat) (a : Adj) (nodeW : Nat → Rat)
+    (sources targets : Option (List Nat)) : List Rat :=
+  apiBetweenness n a nodeW sources targets false
+
 end Pyunicorn.NetBetw
